@@ -37,7 +37,7 @@ def parseStatRec (j : Json) : R Spec.StatRec := do
          kstkesp := ← n 25, kstkeip := ← n 26, signal := ← n 27,
          blocked := ← n 28, sigignore := ← n 29, sigcatch := ← n 30,
          wchan := ← n 31, nswap := ← n 32, cnswap := ← n 33,
-         exitSignal := ← n 34, processor := ← n 35,
+         exitSignal := i 34, processor := ← n 35,
          rtPriority := ← n 36, policy := ← n 37, tail := tail' }
 
 def parseKV (j : Json) : R (Bytes × Bytes) :=
@@ -164,6 +164,12 @@ def handleProc (j : Json) : R Json := do
         | .inl r => pure (r.pid, some (Sum.inl r))
         | .inr b => do pure (← natF t "tid", some (Sum.inr b))) j "threads"
   let threads : List (Nat × Sum Spec.StatRec Bytes) := threadsAll.filterMap fun (tid, o) => o.map fun v => (tid, v)
+  -- threads that ended and show as ProcessLookupError (ESRCH from open/read) rather than FileNotFoundError
+  let esrchOpt ← listF (fun t => do
+      match t.getObjVal? "esrch" with
+      | .ok _ => do pure (some (← natF t "tid"))
+      | .error _ => pure (none : Option Nat)) j "threads"
+  let esrchTids : List Nat := esrchOpt.filterMap id
   let dev ← optF (asList parseDevEntry) j "dev"
   let dev2 ← optF (asList parseDevEntry) j "dev2"
   let procstat ← optF parseProcStatW j "procstat"
@@ -194,7 +200,9 @@ def handleProc (j : Json) : R Json := do
       | none => terminal cfg tmap statBytes)),
     ("threads", jRes (jList jThread) (match listing with
       | some ls => threadsCall cfg xcfg tck ls
-          (fun t => match thrFiles.lookup t with | some b => TaskFile.content b | none => TaskFile.vanished) alive
+          (fun t => match thrFiles.lookup t with
+            | some b => TaskFile.content b
+            | none => if esrchTids.contains t then TaskFile.esrch else TaskFile.vanished) alive
       | none => C06.threads cfg tck thrFiles))]
     ++ (match procstat, procstat2 with
       | some w, some w2 =>
@@ -223,8 +231,14 @@ def handleProc (j : Json) : R Json := do
         ("cpu_num", jOk (jInt (Spec.cpuNum r)))]
         ++ (match procstat with
           | some w => if wfProcStatB w then [("create_time", jOk (jRat (Spec.createTime tck (w.btime : Rat) r)))]
-              ++ (if procstat2.isSome && w.btime != 0 then
-                    [("create_time_pinned", jOk (jRat (Spec.createTime tck (w.btime : Rat) r)))] else [])
+              -- two calls in one interpreter (C06_create_time_two_calls): the btime of the FIRST call,
+              -- unless that was 0 (falsy pin): then the btime published at the second call
+              ++ (match procstat2 with
+                  | some w2 =>
+                    if w.btime != 0 then [("create_time_pinned", jOk (jRat (Spec.createTime tck (w.btime : Rat) r)))]
+                    else if wfProcStatB w2 then [("create_time_pinned", jOk (jRat (Spec.createTime tck (w2.btime : Rat) r)))]
+                    else []
+                  | none => [])
             else []
           | none => [("create_time", jOk (jRat (Spec.createTime tck (btime : Rat) r)))])
         ++ (match dev with
